@@ -176,14 +176,14 @@ Proof.
 Qed.
 
 (* ---- branches ---- *)
-Lemma branch_consts : branch_plus = 2 /\ branch_lo = -128 /\ branch_hi = 127 /\ branch_fix = 256 /\ branch_escape_target = 0.
+Lemma branch_consts : branch_plus = 2 /\ branch_lo = -128 /\ branch_hi = 127 /\ branch_fix = 256 /\ branch_escape = None.
 Proof. repeat split; reflexivity. Qed.
 
 Lemma branch_encode m pc target :
-  is_branch m = true -> target <> 0 -> 0 <= pc <= 65535 -> - 2 ^ 62 <= target <= 2 ^ 62 ->
+  is_branch m = true -> 0 <= pc <= 65535 -> - 2 ^ 62 <= target <= 2 ^ 62 ->
   code_encode m FAbs target (Some pc) = spec_branch m pc target.
 Proof.
-  intros Hb Ht Hpc Htg. unfold code_encode, emit_instruction, spec_branch. cbn [form_operand].
+  intros Hb Hpc Htg. unfold code_encode, emit_instruction, spec_branch. cbn [form_operand].
   rewrite is_branch_code_spec, Hb.
   destruct branch_consts as (-> & -> & -> & -> & ->).
   destruct (branch_modes m Hb) as (Hzp & Hab & o & Hrel). rewrite Hrel.
@@ -202,7 +202,7 @@ Proof.
       unfold as_u8, byte. replace ((d + 256) mod 256) with (d mod 256); [reflexivity|].
       rewrite <- (Z.mod_add d 1 256) by lia. f_equal; lia.
     + replace (d <=? 255) with true by lia. reflexivity.
-  - destruct (target =? 0) eqn:Z0; [lia | reflexivity].
+  - reflexivity.
 Qed.
 
 (* a negative branch operand -1 / -2 in the pass that has no current pc: `target as usize + 2` wraps around (it panicked
@@ -224,10 +224,11 @@ Proof.
            end; cbn [snd]; discriminate.
 Qed.
 
-(* the escape: a branch whose operand evaluates to 0 is never rejected *)
-Lemma branch_to_zero_refuted :
-  exists m pc, is_branch m = true /\ spec_branch m pc 0 = None /\ code_encode m FAbs 0 (Some pc) = Some [208%N; 0%N].
-Proof. exists Bne, 8192. vm_compute. repeat split; reflexivity. Qed.
+(* a branch to address 0 is a branch like any other (the `target_pc == 0` escape is gone): out of range => rejected *)
+Lemma branch_to_zero_rejected :
+  spec_branch Bne 8192 0 = None /\ code_encode Bne FAbs 0 (Some 8192) = None /\
+  code_encode Bne FAbs 0 (Some 100) = Some [208%N; 154%N].
+Proof. vm_compute. repeat split; reflexivity. Qed.
 
 (* outside 0..65535 the model truncates (documented behaviour, not demanded rejected) *)
 Lemma out_of_range_documented :
